@@ -103,6 +103,59 @@ fn unix_stream(e: &'static Engine, workers: usize, wk: char, rk: char, len: usiz
     e.note(&format!("len={}", len));
 }
 
+/// descriptor reuse: the last socket of connection 1 is dropped by a `k1` participant while a second connection is
+/// *created*, used and dropped by `k2` participants at the same time. The kernel hands out the lowest free descriptor
+/// numbers, so the new sockets get the numbers that connection 1 has just closed: whatever the drop still does with its
+/// number (deregistering from epoll) must not hit the new sockets.
+fn unix_fd_reuse(e: &'static Engine, workers: usize, k1: char, k2: char) {
+    rt_init(workers);
+    static CLOSED: AtomicBool = AtomicBool::new(false);
+    static EARLY: AtomicBool = AtomicBool::new(false);
+    let result: Arc<Mutex<Option<Vec<u8>>>> = Arc::new(Mutex::new(None));
+    let (a1, b1) = UnixStream::pair().unwrap();
+    // the lower number is free again: the new connection will get it and the number of b1
+    drop(a1);
+    let d2 = payload(5);
+    e.begin();
+    let mut hs = vec![];
+    hs.push(spawn_part(e, k1, move || {
+        drop(b1);
+    }));
+    // the second connection is born inside the window
+    let d = d2.clone();
+    let r = result.clone();
+    hs.push(spawn_part(e, k2, move || {
+        let (mut a2, mut b2) = UnixStream::pair().unwrap();
+        let w = spawn_part(e, k2, move || {
+            if let Err(err) = a2.write_all(&d) {
+                e.fail("write_error", &format!("write failed: {}", err));
+            }
+            CLOSED.store(true, Ordering::SeqCst);
+            drop(a2);
+        });
+        match read_all(&mut b2, 4, &CLOSED, &EARLY) {
+            Ok(v) => *r.lock().unwrap() = Some(v),
+            Err(err) => e.fail("read_error", &format!("read failed: {}", err)),
+        }
+        drop(b2);
+        if join_part(e, w).is_err() {
+            e.fail("unexpected_panic", "the second writer panicked");
+        }
+    }));
+    for h in hs {
+        if join_part(e, h).is_err() {
+            e.fail("unexpected_panic", &format!("an I/O participant panicked: {:?}", e.panics().last()));
+        }
+    }
+    if EARLY.load(Ordering::SeqCst) {
+        e.fail("early_eof", "read returned 0 before the peer closed the stream");
+    }
+    if result.lock().unwrap().as_ref() != Some(&d2) {
+        e.fail("stream_corrupted", &format!("received {:?}", result.lock().unwrap()));
+    }
+    e.note("ok");
+}
+
 /// loopback TCP: accept, connect, transfer, EOF
 fn tcp_loopback(e: &'static Engine, workers: usize, len: usize, chunk: usize, bufsz: usize, client_thread: bool) {
     rt_init(workers);
@@ -413,6 +466,12 @@ pub fn build_c17(quick: bool) -> Vec<Scenario> {
         }
         v.push(Scenario::new(p, "unix_stream", format!("unix.2conn.CC.len5.w{}", w), Arc::new(move |e| unix_stream(e, w, 'C', 'C', 5, 0, 4, false, 2))));
         v.push(Scenario::new(p, "tcp", format!("tcp.CC.len7.buf3.w{}", w), Arc::new(move |e| tcp_loopback(e, w, 7, 0, 3, false))));
+        // a connection is dropped while another one is created: descriptor numbers are reused at once
+        v.push(Scenario::new(p, "unix_fd_reuse", format!("unix.fd_reuse.drop_T.new_CC.w{}", w), Arc::new(move |e| unix_fd_reuse(e, w, 'T', 'C'))));
+        if w == 2 {
+            v.push(Scenario::new(p, "unix_fd_reuse", "unix.fd_reuse.drop_C.new_CC.w2", Arc::new(move |e| unix_fd_reuse(e, 2, 'C', 'C'))));
+            v.push(Scenario::new(p, "unix_fd_reuse", "unix.fd_reuse.drop_C.new_TT.w2", Arc::new(move |e| unix_fd_reuse(e, 2, 'C', 'T'))));
+        }
         // plain threads wait in std::thread::park, which may return spuriously
         v.push(Scenario::new(p, "thread_io_spurious_park", format!("unix.CT.len5.chunk1.buf64.spurious_park.w{}", w), Arc::new(move |e| unix_stream(e, w, 'C', 'T', 5, 1, 64, false, 1))).spurious());
         v.push(Scenario::new(p, "tcp", format!("tcp.thread_client.len7.chunk2.w{}", w), Arc::new(move |e| tcp_loopback(e, w, 7, 2, 64, true))));
